@@ -1170,10 +1170,13 @@ func verifyGitObjectAndAttestations(ctx context.Context, policy *State, target s
 		for _, verifier := range verifiers {
 			// explicitly not looking at the attestation
 			// that applies to the _push_
-			// thus, we also set threshold to 1
-			verifier.threshold = 1
+			// thus, we also set threshold to 1; this is done on a copy as
+			// the verifier is shared with the policy state's cache and must
+			// keep its threshold for other verifications
+			tagVerifier := *verifier
+			tagVerifier.threshold = 1
 
-			_, err := verifier.Verify(ctx, options.tagObjectID, nil)
+			_, err := tagVerifier.Verify(ctx, options.tagObjectID, nil)
 			if err == nil {
 				// Signature verification succeeded
 				tagObjVerified = true
